@@ -60,12 +60,14 @@ Inductive op19 :=
         (* a scripted interleaving of up to n callers, gossip heads, clock advances and
            getter answers; observed: sorted results, gossip verdicts, underlying calls *)
 | KPark (parked : bool) (g a : hdr) (i : hin)
-        (r1 r2 r3 : option robs).
+        (r1 r2 r3 r4 : option robs).
         (* the witness of known finding F19: a gossip head g is delivered; with [parked] the
            verifier call is held between setLocalHead's store-head comparison and pending.Add;
            caller 1 learns the higher head a; the sync loop completes; caller 2 (failing answer)
            returns; the verifier call resumes; caller 1 finishes; caller 3 (failing answer),
-           started after 1 and 2 returned, returns.  Observed: the three results. *)
+           started after 1 and 2 returned, returns - with [parked] while the sync loop is
+           held before its clean-up of pending; the sync loop runs; caller 4 returns.
+           Observed: the four results. *)
 
 Record case19 := Case19 {
   k_p : params;
@@ -107,6 +109,8 @@ Definition park_c1fin (i : hin) : list cev :=
   [CStep 1 (ITail (i_tail i)); CStep 1 (IBif (i_b2 i)); CStep 1 INone].
 Definition park_c3 (i : hin) : list cev :=
   [CStep 3 ICall; CStep 3 INone; CStep 3 (IAns GFail); CStep 3 (IBif (i_b1 i))].
+Definition park_c4 (i : hin) : list cev :=
+  [CSyncDone; CStep 4 ICall; CStep 4 INone; CStep 4 (IAns GFail); CStep 4 (IBif (i_b1 i))].
 
 (** events before caller 3 starts *)
 Definition park_l1c (g a : hdr) (i : hin) : list cev :=
@@ -152,11 +156,12 @@ Definition sched_model (s : sstate) (n : nat) (i : hin) (acts : list act)
   (c_s c, sort_robs (map (proj false) (rets_of tr)), v, ids (gets_of tr)).
 
 Definition park_model (s : sstate) (parked : bool) (g a : hdr) (i : hin)
-  : sstate * option robs * option robs * option robs :=
+  : sstate * option robs * option robs * option robs * option robs :=
   let '(p1, t1) := prun p tv (pinit s) (park_l1 parked g a i) in
   let '(p2, t2) := prun p tv p1 (map PEv (park_c3 i)) in
-  (c_s (p_c p2), option_map (proj false) (ret_of 1 t1), option_map (proj false) (ret_of 2 t1),
-   option_map (proj false) (ret_of 3 t2)).
+  let '(p3, t3) := prun p tv p2 (map PEv (park_c4 i)) in
+  (c_s (p_c p3), option_map (proj false) (ret_of 1 t1), option_map (proj false) (ret_of 2 t1),
+   option_map (proj false) (ret_of 3 t2), option_map (proj false) (ret_of 4 t3)).
 
 (** the model's observations for a list of operations *)
 Fixpoint fill (s : sstate) (ops : list op19) : list op19 :=
@@ -179,9 +184,9 @@ Fixpoint fill (s : sstate) (ops : list op19) : list op19 :=
     let '(s1, res, v, calls) := sched_model s n i acts in
     let s2 := post sync s1 in
     KSched n i acts res v calls (hgt (s_store s2)) :: fill s2 r
-  | KPark pk g a i _ _ _ :: r =>
-    let '(s1, r1, r2, r3) := park_model s pk g a i in
-    KPark pk g a i r1 r2 r3 :: fill (post sync s1) r
+  | KPark pk g a i _ _ _ _ :: r =>
+    let '(s1, r1, r2, r3, r4) := park_model s pk g a i in
+    KPark pk g a i r1 r2 r3 r4 :: fill (post sync s1) r
   end.
 
 Definition op_eqb (a b : op19) : bool :=
@@ -194,8 +199,9 @@ Definition op_eqb (a b : op19) : bool :=
     list_eqb robs_eqb res res' && list_eqb call_eqb calls calls' && (sh =? sh')
   | KSched _ _ _ res v calls sh, KSched _ _ _ res' v' calls' sh' =>
     list_eqb robs_eqb res res' && list_eqb Bool.eqb v v' && list_eqb call_eqb calls calls' && (sh =? sh')
-  | KPark _ _ _ _ r1 r2 r3, KPark _ _ _ _ r1' r2' r3' =>
-    option_eqb robs_eqb r1 r1' && option_eqb robs_eqb r2 r2' && option_eqb robs_eqb r3 r3'
+  | KPark _ _ _ _ r1 r2 r3 r4, KPark _ _ _ _ r1' r2' r3' r4' =>
+    option_eqb robs_eqb r1 r1' && option_eqb robs_eqb r2 r2' && option_eqb robs_eqb r3 r3' &&
+    option_eqb robs_eqb r4 r4'
   | _, _ => false
   end.
 
@@ -287,11 +293,11 @@ Fixpoint ok_ops (s : sstate) (lo : N) (ops : list op19) : bool :=
   | KSched n i acts res _ _ _ :: r =>
     forallb (mono_ok lo) res &&
     ok_ops (post sync (fst (fst (fst (sched_model s n i acts))))) (fold_left new_lo res lo) r
-  | KPark pk g a i r1 r2 r3 :: r =>
+  | KPark pk g a i r1 r2 r3 r4 :: r =>
     (* callers 1 and 2 returned before caller 3 started: its result is not below theirs *)
-    let l := olist r1 ++ olist r2 ++ olist r3 in
+    let l := olist r1 ++ olist r2 ++ olist r3 ++ olist r4 in
     forallb (mono_ok lo) l && ole (oheight r1) (oheight r3) && ole (oheight r2) (oheight r3) &&
-    ok_ops (post sync (fst (fst (fst (park_model s pk g a i))))) (fold_left new_lo l lo) r
+    ok_ops (post sync (fst (fst (fst (fst (park_model s pk g a i)))))) (fold_left new_lo l lo) r
   end.
 
 End run.
@@ -305,9 +311,20 @@ Definition ok19 (c : case19) : bool :=
   ok_ops (k_p c) (link_tv (k_range c)) (k_sync c) (s0_of c) 0 (k_ops c).
 
 (** known-finding class 1 (F19): the case parks a gossip verifier call between the two
-    halves of setLocalHead *)
-Definition is_parked (o : op19) : bool := match o with KPark true _ _ _ _ _ _ => true | _ => false end.
-Definition class19 (c : case19) : N := if existsb is_parked (k_ops c) then 1 else 0.
+    halves of setLocalHead AND the observation shows the finding as recorded - the head
+    handed out afterwards (caller 3) is below an earlier one, and after the sync loop's
+    clean-up (caller 4) Head() is back at or above everything returned before.  A parked
+    case in which Head() does NOT recover is outside the class: a different (permanent)
+    violation, reported as such. *)
+Definition is_parked (o : op19) : bool := match o with KPark true _ _ _ _ _ _ _ => true | _ => false end.
+Definition is_f19 (o : op19) : bool :=
+  match o with
+  | KPark true _ _ _ r1 r2 r3 r4 =>
+    ole (oheight r1) (oheight r4) && ole (oheight r2) (oheight r4) && ole (oheight r3) (oheight r4) &&
+    match oheight r4 with Some _ => true | None => false end
+  | _ => false
+  end.
+Definition class19 (c : case19) : N := if existsb is_f19 (k_ops c) then 1 else 0.
 
 Definition chk19 (c : case19) : bool * bool * N :=
   (list_eqb op_eqb (model19 c) (k_ops c), ok19 c, class19 c).
@@ -506,12 +523,14 @@ Lemma park_model_atomic s g a i :
   park_model p tv s false g a i =
   let '(c1, t1) := crun p tv (cinit s) (park_l1c g a i) in
   let '(c2, t2) := crun p tv c1 (park_c3 i) in
-  (c_s c2, option_map (proj false) (ret_of 1 t1), option_map (proj false) (ret_of 2 t1),
-   option_map (proj false) (ret_of 3 t2)).
+  let '(c3, t3) := crun p tv c2 (park_c4 i) in
+  (c_s c3, option_map (proj false) (ret_of 1 t1), option_map (proj false) (ret_of 2 t1),
+   option_map (proj false) (ret_of 3 t2), option_map (proj false) (ret_of 4 t3)).
 Proof.
   unfold park_model, park_l1, pinit. rewrite prun_atomic.
   destruct (crun p tv (cinit s) (park_l1c g a i)) as [c1 t1]. rewrite prun_atomic.
-  destruct (crun p tv c1 (park_c3 i)) as [c2 t2]. reflexivity.
+  destruct (crun p tv c1 (park_c3 i)) as [c2 t2]. rewrite prun_atomic.
+  destruct (crun p tv c2 (park_c4 i)) as [c3 t3]. reflexivity.
 Qed.
 
 Lemma oproj_ok lo (o : option hres) : (forall v, o = Some (ROk v) -> lo <= h_height v) ->
@@ -530,18 +549,19 @@ Proof.
 Qed.
 
 Lemma park_ok_model s lo g a i : lo <= L s ->
-  let '(s1, r1, r2, r3) := park_model p tv s false g a i in
-  let l := olist r1 ++ olist r2 ++ olist r3 in
+  let '(s1, r1, r2, r3, r4) := park_model p tv s false g a i in
+  let l := olist r1 ++ olist r2 ++ olist r3 ++ olist r4 in
   forallb (mono_ok lo) l && ole (oheight r1) (oheight r3) && ole (oheight r2) (oheight r3) = true /\
   fold_left new_lo l lo <= L s1.
 Proof.
   intros Hlo. rewrite park_model_atomic.
   destruct (crun p tv (cinit s) (park_l1c g a i)) as [c1 t1] eqn:H1.
   destruct (crun p tv c1 (park_c3 i)) as [c2 t2] eqn:H2.
-  assert (Hall : crun p tv (cinit s) (park_l1c g a i ++ park_c3 i) = (c2, t1 ++ t2))
-    by (rewrite crun_app, H1, H2; reflexivity).
+  destruct (crun p tv c2 (park_c4 i)) as [c3 t3] eqn:H3.
+  assert (Hall : crun p tv (cinit s) (park_l1c g a i ++ park_c3 i ++ park_c4 i) = (c3, t1 ++ t2 ++ t3))
+    by (rewrite crun_app, H1, crun_app, H2, H3; reflexivity).
   destruct (run_upper p tv _ _ _ _ (cinit_below s) Hall) as (_ & Hup & Hle).
-  assert (Hge : forall b v, In (ORet b (ROk v)) (t1 ++ t2) -> L s <= h_height v).
+  assert (Hge : forall b v, In (ORet b (ROk v)) (t1 ++ t2 ++ t3) -> L s <= h_height v).
   { intros b v Hin.
     assert (HJ : sbj_above (L s) b (cinit s)) by (split; [cbn; lia|discriminate]).
     destruct (run_lower p tv _ _ _ _ _ _ HJ Hall) as (_ & Hl). apply Hl. exact Hin. }
@@ -550,29 +570,33 @@ Proof.
     intros x Hx. cbn in Hx. repeat (destruct Hx as [Hx|Hx]; [discriminate|]). exact Hx. }
   assert (Hord : forall j v1 v3, ret_of j t1 = Some (ROk v1) -> ret_of 3 t2 = Some (ROk v3) ->
                  h_height v1 <= h_height v3).
-  { intros j v1 v3 Hj H3. eapply (monotone_conc p tv s _ _ _ _ _ _ j 3%nat v1 v3 H1 H2);
-      [apply ret_of_in; exact Hj|exact Hidle|apply ret_of_in; exact H3]. }
+  { intros j v1 v3 Hj H3'. eapply (monotone_conc p tv s _ _ _ _ _ _ j 3%nat v1 v3 H1 H2);
+      [apply ret_of_in; exact Hj|exact Hidle|apply ret_of_in; exact H3']. }
+  assert (I1 : forall b r, ret_of b t1 = Some r -> In (ORet b r) (t1 ++ t2 ++ t3))
+    by (intros b r Hr; apply in_or_app; left; apply ret_of_in; exact Hr).
+  assert (I2 : forall b r, ret_of b t2 = Some r -> In (ORet b r) (t1 ++ t2 ++ t3))
+    by (intros b r Hr; apply in_or_app; right; apply in_or_app; left; apply ret_of_in; exact Hr).
+  assert (I3 : forall b r, ret_of b t3 = Some r -> In (ORet b r) (t1 ++ t2 ++ t3))
+    by (intros b r Hr; apply in_or_app; right; apply in_or_app; right; apply ret_of_in; exact Hr).
   split.
   - rewrite !forallb_app. rewrite !oproj_ok.
     + cbn [andb]. rewrite (ole_proj (ret_of 1 t1) (ret_of 3 t2)), (ole_proj (ret_of 2 t1) (ret_of 3 t2)); [reflexivity| |].
       * intros v1 v3 Ha Hb. eapply Hord; eassumption.
       * intros v1 v3 Ha Hb. eapply Hord; eassumption.
-    + intros v Hv. apply ret_of_in in Hv. specialize (Hge 3%nat v (in_or_app _ _ _ (or_intror Hv))). lia.
-    + intros v Hv. apply ret_of_in in Hv. specialize (Hge 2%nat v (in_or_app _ _ _ (or_introl Hv))). lia.
-    + intros v Hv. apply ret_of_in in Hv. specialize (Hge 1%nat v (in_or_app _ _ _ (or_introl Hv))). lia.
+    + intros v Hv. specialize (Hge _ v (I3 _ _ Hv)). lia.
+    + intros v Hv. specialize (Hge _ v (I2 _ _ Hv)). lia.
+    + intros v Hv. specialize (Hge _ v (I1 _ _ Hv)). lia.
+    + intros v Hv. specialize (Hge _ v (I1 _ _ Hv)). lia.
   - apply fold_new_lo; [cbn in Hup; lia|].
     intros j h Hin.
-    assert (Hx : forall (o : option hres) b tr, (forall r, o = Some r -> In (ORet b r) tr) ->
-                 In (BOk j h) (olist (option_map (proj false) o)) -> exists v, In (ORet b (ROk v)) tr /\ h_height v = h).
-    { intros o b tr Ho Hi. destruct o as [[v| | | | | |]|]; cbn in Hi; try (destruct Hi as [Hi|[]]; discriminate); try contradiction.
-      destruct Hi as [Hi|[]]. injection Hi as _ <-. exists v. split; [apply Ho; reflexivity|reflexivity]. }
-    apply in_app_or in Hin. destruct Hin as [Hin|Hin]; [|apply in_app_or in Hin; destruct Hin as [Hin|Hin]].
-    + destruct (Hx _ 1%nat t1 (fun r Hr => ret_of_in _ _ _ Hr) Hin) as (v & Hv & <-).
-      apply (Hle 1%nat). apply in_or_app. left. exact Hv.
-    + destruct (Hx _ 2%nat t1 (fun r Hr => ret_of_in _ _ _ Hr) Hin) as (v & Hv & <-).
-      apply (Hle 2%nat). apply in_or_app. left. exact Hv.
-    + destruct (Hx _ 3%nat t2 (fun r Hr => ret_of_in _ _ _ Hr) Hin) as (v & Hv & <-).
-      apply (Hle 3%nat). apply in_or_app. right. exact Hv.
+    assert (Hx : forall (o : option hres) b, (forall r, o = Some r -> In (ORet b r) (t1 ++ t2 ++ t3)) ->
+                 In (BOk j h) (olist (option_map (proj false) o)) -> h <= L (c_s c3)).
+    { intros o b Ho Hi. destruct o as [[v| | | | | |]|]; cbn in Hi; try (destruct Hi as [Hi|[]]; discriminate); try contradiction.
+      destruct Hi as [Hi|[]]. injection Hi as _ <-. apply (Hle b). apply Ho. reflexivity. }
+    apply in_app_or in Hin. destruct Hin as [Hin|Hin]; [eapply Hx; [|exact Hin]; apply I1|].
+    apply in_app_or in Hin. destruct Hin as [Hin|Hin]; [eapply Hx; [|exact Hin]; apply I1|].
+    apply in_app_or in Hin. destruct Hin as [Hin|Hin]; [eapply Hx; [|exact Hin]; apply I2|].
+    eapply Hx; [|exact Hin]; apply I3.
 Qed.
 
 Lemma ok_fill ops : forall s lo, lo <= L s -> existsb is_parked ops = false ->
@@ -580,41 +604,47 @@ Lemma ok_fill ops : forall s lo, lo <= L s -> existsb is_parked ops = false ->
 Proof.
   induction ops as [|o ops IH]; intros s lo Hlo Hcl; cbn; [reflexivity|].
   cbn in Hcl. apply orb_false_iff in Hcl. destruct Hcl as [Hc0 Hcl].
-  destruct o as [d|h b t ok sh|st i res calls sh el|n i w d res calls sh|n i acts res gok calls sh|pk g a i r1 r2 r3]; cbn.
+  destruct o as [d|h b t ok sh|st i res calls sh el|n i w d res calls sh|n i acts res gok calls sh|pk g a i r1 r2 r3 r4]; cbn.
   - apply IH; [exact Hlo|exact Hcl].
   - pose proof (gossip_mono p tv s h b t) as Hm.
-    destruct (gossip p tv s h b t) as [s1 ok'] eqn:Hg. cbn in *. rewrite Hg. cbn. apply IH; [rewrite post_L; lia|exact Hcl].
+    destruct (gossip p tv s h b t) as [s1 ok'] eqn:Hg. cbn in *. rewrite Hg. cbn. apply IH; [eapply N.le_trans; [|apply post_L]; lia|exact Hcl].
   - rewrite clause_ok_model. cbn.
     destruct (head_seq_bounds p tv s i) as [Hb1 Hb2].
     rewrite mono_ok_proj by (intros v Hv; specialize (Hb2 v Hv); lia). cbn.
-    apply IH; [|exact Hcl]. rewrite post_L. apply new_lo_proj; [lia|]. intros v Hv. apply (Hb2 v Hv).
+    apply IH; [|exact Hcl]. eapply N.le_trans; [|apply post_L]. apply new_lo_proj; [lia|]. intros v Hv. apply (Hb2 v Hv).
   - pose proof (conc_ok_model s lo n i w d Hlo) as Hc.
     destruct (conc_model p tv s n i w d) as [[s1 res'] calls'] eqn:Hm. cbn. rewrite Hm. cbn.
-    destruct Hc as [-> Hf]. cbn. apply IH; [rewrite post_L; exact Hf|exact Hcl].
+    destruct Hc as [-> Hf]. cbn. apply IH; [eapply N.le_trans; [exact Hf|apply post_L]|exact Hcl].
   - pose proof (sched_ok_model s lo n i acts Hlo) as Hc.
     destruct (sched_model p tv s n i acts) as [[[s1 res'] v'] calls'] eqn:Hm. cbn. rewrite Hm. cbn.
-    destruct Hc as [-> Hf]. cbn. apply IH; [rewrite post_L; exact Hf|exact Hcl].
+    destruct Hc as [-> Hf]. cbn. apply IH; [eapply N.le_trans; [exact Hf|apply post_L]|exact Hcl].
   - destruct pk; [discriminate|].
     pose proof (park_ok_model s lo g a i Hlo) as Hc.
-    destruct (park_model p tv s false g a i) as [[[s1 q1] q2] q3] eqn:Hm. cbn. rewrite Hm. cbn.
-    destruct Hc as [-> Hf]. cbn. apply IH; [rewrite post_L; exact Hf|exact Hcl].
+    destruct (park_model p tv s false g a i) as [[[[s1 q1] q2] q3] q4] eqn:Hm. cbn. rewrite Hm. cbn.
+    destruct Hc as [-> Hf]. cbn. apply IH; [eapply N.le_trans; [exact Hf|apply post_L]|exact Hcl].
 Qed.
 
 End ok.
 
-(** for every case outside the known-finding class: the check accepts the
-    observations the model itself produces *)
+(** for every case that does not park a verifier call inside setLocalHead (the family of
+    the F19 witness, whose recovered instances form known-finding class 1): the check
+    accepts the observations the model itself produces *)
 Theorem model19_ok : forall p range sync store now ops,
-  class19 (Case19 p range sync store now ops) = 0 ->
+  existsb is_parked ops = false ->
   ok19 (Case19 p range sync store now (model19 (Case19 p range sync store now ops))) = true.
 Proof.
-  intros p range sync store now ops Hc. unfold ok19, model19. cbn. apply ok_fill; [lia|].
-  unfold class19 in Hc. cbn in Hc. destruct (existsb is_parked ops); [discriminate|reflexivity].
+  intros p range sync store now ops Hc. unfold ok19, model19. cbn. apply ok_fill; [lia|exact Hc].
 Qed.
 
 (** inside the class the model itself shows the violation (the Coq side of finding F19) *)
 Example model19_park_fails :
   ok19 (Case19 rf_p 0 false (Some (rf_h 17)) 1000
          (model19 (Case19 rf_p 0 false (Some (rf_h 17)) 1000
-            [KPark true (rf_h 19) (rf_h 20) (HIn 5 GFail ([], false) (TOk None) ([], false)) None None None]))) = false.
+            [KPark true (rf_h 19) (rf_h 20) (HIn 5 GFail ([], false) (TOk None) ([], false)) None None None None]))) = false.
+Proof. vm_compute. reflexivity. Qed.
+
+Example model19_park_class :
+  class19 (Case19 rf_p 0 false (Some (rf_h 17)) 1000
+         (model19 (Case19 rf_p 0 false (Some (rf_h 17)) 1000
+            [KPark true (rf_h 19) (rf_h 20) (HIn 5 GFail ([], false) (TOk None) ([], false)) None None None None]))) = 1.
 Proof. vm_compute. reflexivity. Qed.
